@@ -249,6 +249,19 @@ def s7_cfg(repo_dir, S, F=None):
 
             def tk(i):
                 return toks[i][1] if 0 <= i < len(toks) else ""
+            handled = set()
+            pred_spans = []
+
+            def in_pred(i):
+                return any(a_ <= i < b_ for a_, b_ in pred_spans)
+            # predicate token ranges of well-formed attributes / cfg! calls (idents inside them are part of the predicate)
+            for i0 in range(len(toks)):
+                if toks[i0][0] == "ident" and toks[i0][1].replace("r#", "") in ("cfg", "cfg_attr") and tk(i0 + 1) == "(" and tk(i0 - 1) == "[" and tk(i0 - 2) in ("#", "!"):
+                    e0, _ = rustlex.balanced(toks, i0 + 1)
+                    pred_spans.append((i0 + 1, e0))
+                if toks[i0][0] == "ident" and toks[i0][1].replace("r#", "") == "cfg" and tk(i0 + 1) == "!" and tk(i0 + 2) in ("(", "[", "{"):
+                    e0, _ = rustlex.balanced(toks, i0 + 2)
+                    pred_spans.append((i0 + 2, e0))
             for i, (kind, t, line) in enumerate(toks):
                 # attributes: # [!] [ name ( .. ) ]
                 if kind == "punct" and t == "#":
@@ -259,6 +272,7 @@ def s7_cfg(repo_dir, S, F=None):
                         name = tk(j + 1)
                         if name in ("cfg", "cfg_attr") and tk(j + 2) == "(":
                             _, inner = rustlex.balanced(toks, j + 2)
+                            handled.add(j + 1)
                             if name == "cfg_attr":
                                 depth, cut = 0, len(inner)
                                 for q, (k2, t2, _) in enumerate(inner):
@@ -267,6 +281,11 @@ def s7_cfg(repo_dir, S, F=None):
                                     if depth == 0 and k2 == "punct" and t2 == ",":
                                         cut = q
                                         break
+                                payload = inner[cut + 1:]
+                                # the attribute that is switched on may itself be a cfg: `cfg_attr(not(test), cfg(debug_assertions))`
+                                for q, (k2, t2, _) in enumerate(payload):
+                                    if k2 == "ident" and t2.replace("r#", "") in ("cfg", "cfg_attr") :
+                                        bad(i, "conditional-code", "cfg_attr(..) switches on another %s attribute" % t2)
                                 inner = inner[:cut]
                             pred = rustlex.text(inner)
                             n += 1
@@ -275,8 +294,11 @@ def s7_cfg(repo_dir, S, F=None):
                         elif name == "path":
                             bad(i, "path-attribute", "#[path = ..] pulls in a module from a place this scan may not cover")
                 # macro calls: name ! ( / [ / {
+                if kind == "ident" and t.startswith("r#"):
+                    t = t[2:]   # raw identifiers name the same macros / attributes
                 if kind == "ident" and tk(i + 1) == "!" and tk(i + 2) in ("(", "[", "{"):
                     if t == "cfg":
+                        handled.add(i)
                         _, inner = rustlex.balanced(toks, i + 2)
                         pred = rustlex.text(inner)
                         n += 1
@@ -305,6 +327,10 @@ def s7_cfg(repo_dir, S, F=None):
                         n += 1
                         if effect:
                             bad(i, "debug-only-effect", "%s!(..) contains %s, which runs in debug builds only" % (t, effect))
+                # `cfg` / `cfg_attr` / the profile switches anywhere else (handed to a macro that assembles the attribute or the
+                # `cfg!` call from its arguments, ...) cannot be interpreted here
+                if kind == "ident" and t in ("cfg", "cfg_attr", "debug_assertions", "overflow_checks") and i not in handled and not in_pred(i):
+                    bad(i, "conditional-code", "the token `%s` outside a recognised #[cfg(..)] / #[cfg_attr(..)] / cfg!(..) form" % t)
                 # target-dependent constants
                 if kind == "ident" and (TARGET_IDENT.match(t) or (t in ("usize", "isize") and tk(i + 1) == "::" and tk(i + 2) in ("MAX", "MIN", "BITS"))):
                     bad(i, "target-dependent", "`%s` has a target-dependent value" % (t if TARGET_IDENT.match(t) else t + "::" + tk(i + 2)))
@@ -343,7 +369,84 @@ def s7_cfg(repo_dir, S, F=None):
                                 bad(i, "const-initialiser", "const %s is initialised with `%s` (not literals): its value is whatever the build host computes" % (tk(i + 1), rustlex.text(init)[:60]))
                             else:
                                 consts_seen[tk(i + 1)] = True
+    # the build around the source: no build script, no symlink under src/, and a manifest that cannot change what the analysed
+    # configurations mean (profiles may tune optimisation, not overflow checks / debug assertions; no patched or target-specific deps)
+    if os.path.exists(os.path.join(repo_dir, "build.rs")):
+        S.bad("S7", "build-script", "build.rs", "the crate has a build script: it can emit cfg flags, environment variables and generated code that no analysed configuration reflects", "build.rs")
+    for root, dirs, files in os.walk(os.path.join(repo_dir, "src")):
+        for e_ in dirs + files:
+            if os.path.islink(os.path.join(root, e_)):
+                S.bad("S7", "symlink-in-src", os.path.relpath(os.path.join(root, e_), repo_dir), "%s is a symbolic link: the code behind it is outside the scanned tree" % os.path.relpath(os.path.join(root, e_), repo_dir))
+    try:
+        import tomllib
+        with open(os.path.join(repo_dir, "Cargo.toml"), "rb") as fh:
+            man = tomllib.load(fh)
+    except Exception as e:
+        man = None
+        S.bad("S7", "manifest-unreadable", "Cargo.toml", "Cargo.toml cannot be parsed (%r)" % (e,), "Cargo.toml")
+    if man is not None:
+        for k_ in man:
+            if k_ not in ("package", "badges", "dependencies", "dev-dependencies", "features", "bench", "example", "test", "lib", "profile"):
+                S.bad("S7", "manifest-table", "Cargo.toml:[%s]" % k_, "Cargo.toml has a [%s] table: it can change how or from what the crate is built (UNRECOGNISED)" % k_, "Cargo.toml")
+        for k_ in ("build", "links", "autobins", "autolib"):
+            if k_ in (man.get("package") or {}):
+                S.bad("S7", "manifest-key", "Cargo.toml:package.%s" % k_, "Cargo.toml sets package.%s" % k_, "Cargo.toml")
+        for k_ in ("path", "proc-macro", "crate-type", "name"):
+            if k_ in (man.get("lib") or {}):
+                S.bad("S7", "manifest-key", "Cargo.toml:lib.%s" % k_, "Cargo.toml sets lib.%s: the library root is no longer src/lib.rs as analysed" % k_, "Cargo.toml")
+        for pn_, prof_ in (man.get("profile") or {}).items():
+            for k_ in (prof_ or {}):
+                if k_ not in ("lto", "codegen-units", "opt-level", "debug", "strip", "incremental", "split-debuginfo"):
+                    S.bad("S7", "manifest-profile", "Cargo.toml:profile.%s.%s" % (pn_, k_), "Cargo.toml sets profile.%s.%s: the profiles analysed (dev: debug assertions and overflow checks on; release: both off) are not the profiles built" % (pn_, k_), "Cargo.toml")
+        n += 1
     S.ok("S7", "scan: %d files under src/ tokenised; %d cfg predicates / debug assertions / const initialisers, all within {test, doc, feature = \"serde\"}, side-effect free, literal" % (nfiles, n))
+
+
+def s8_config_independence(rep, repo, tag, configs):
+    """S7 reads the source for switches; this rule reads the *compiled functions*: every hand-written function is evaluated
+    symbolically in each analysed configuration (default, serde, and release = no debug assertions, no overflow checks) and the
+    resulting terms (return value and post-state on every path) must be the same.  A value that depends on `debug_assertions`, on
+    the serde feature, on the profile — by a cfg, through a std macro, through an effect hidden inside a debug assertion — shows up as
+    a difference, however it is spelt."""
+    import symex
+    from terms import subterms
+
+    def canon_lv(t, names):
+        if not isinstance(t, tuple) or not t:
+            return t
+        if t[0] == "lv" and len(t) == 3:
+            return ("lv", t[1], names.setdefault((t[1], t[2]), "v%d" % len(names)))
+        return tuple(canon_lv(x, names) if isinstance(x, tuple) else x for x in t)
+
+    def terms_of(F):
+        out = {}
+        for f in F.fns:
+            if f.derived or f.kind == "Closure" or f.path in F.helpers():
+                continue
+            try:
+                r = symex.evaluate(F, f, canon=True)
+                names = {}
+                out[f.path] = (canon_lv(r["ret"], names), tuple(sorted((k, canon_lv(v, names)) for k, v in r["heap"].items())))
+            except symex.Unsupported as e:
+                out[f.path] = ("unsupported", str(e)[:80])
+        return out
+    ref = terms_of(ir.load("default", repo, tag))
+    S = Sink(rep)
+    for cfg in configs:
+        if cfg == "default":
+            continue
+        try:
+            other = terms_of(ir.load(cfg, repo, tag))
+        except Exception as e:
+            S.bad("S8", "config-unanalysable", cfg, "configuration %s cannot be analysed (%r): no statement about builds of that kind" % (cfg, e))
+            continue
+        for p in sorted(set(ref) | set(other)):
+            if p not in ref or p not in other:
+                S.bad("S8", "config-dependent-item", "%s:%s" % (cfg, p), "function %s exists in only one of the configurations default / %s" % (p, cfg))
+            elif ref[p] != other[p]:
+                S.bad("S8", "config-dependent-behaviour", "%s:%s" % (cfg, p), "%s computes different terms in the configurations default and %s: its behaviour depends on the build" % (p, cfg))
+            else:
+                S.ok("S8", "%s == default: %s" % (cfg, p))
 
 
 RULES = [
@@ -358,7 +461,7 @@ RULES = [
 
 def run(tier, repo=None, tag="repo"):
     rep = Report("C05", tier)
-    configs = ["default", "serde"] + (["release"] if tier == "thorough" else [])
+    configs = ["default", "serde", "release"]
     from extract import ExtractError
     for cfg in list(configs):
         try:
@@ -379,6 +482,8 @@ def run(tier, repo=None, tag="repo"):
             rep.rule("S7", "conditional compilation only on test / doc / feature = \"serde\" (token-level scan of every file under src/): no other cfg, no debug-only side effect, no build-environment macro, no target-dependent constant, const items spelt with literals", 1)
             s7_cfg(os.path.abspath(repo or REPO), S)
         rep.functions.update(f.path for f in F.fns)
+    rep.rule("S8", "configuration independence: every hand-written function evaluates to the same terms in the default, serde and release (no debug assertions / overflow checks) configurations", 300)
+    s8_config_independence(rep, repo, tag, configs)
     rep.configs = configs
     # structural floors counted on today's tree
     inds = ir.load("default", repo, tag).indicators()
